@@ -48,7 +48,7 @@ def run_impl(case, d):
             out = {int(rec["rank"]): float(rec["comp_comm_overlap_pctg"]) for rec in df.to_dict("records")}
         except Exception as e:
             out = {"error": type(e).__name__ + ": " + str(e)[:200]}
-    return {"frames": frames, "out": out}
+    return {"frames": frames, "out": out, "frames_altered": fw.frames_altered(case, ta, frames, sym)}
 
 
 def coq_term(case, impl):
